@@ -35,12 +35,12 @@ Empty == [
     life |-> <<>>, en |-> <<>>, fuzzy |-> <<>>, tokOf |-> <<>>, tokens |-> <<>>,
     stack |-> <<>>, peStack |-> <<>>, selfGone |-> <<>>, deferred |-> <<>>,
     pings |-> <<>>, handles |-> <<>>, closed |-> <<>>,
-    queue |-> <<>>, senders |-> <<>>, closedSeen |-> <<>>,
+    queue |-> <<>>, senders |-> <<>>, closedSeen |-> <<>>, sended |-> <<>>,
     bytes |-> <<>>, peerClosed |-> <<>>, armedOS |-> <<>>, edgeDue |-> <<>>, childOff |-> <<>>, cbSub |-> 0, rearmed |-> {}, shifted |-> {},
     dl |-> <<>>, dlHi |-> <<>>, hasDl |-> <<>>, dlPending |-> <<>>, durPending |-> <<>>, rdyAtBatch |-> {}, armLo |-> <<>>, armHi |-> <<>>, armed |-> <<>>, armId |-> <<>>, firedArm |-> <<>>,
     cbUs |-> 0,
     inDisp |-> FALSE, ndisp |-> 0, waitSeen |-> FALSE, batchSeen |-> FALSE, synthSeen |-> FALSE,
-    waitUs |-> 0, batchUs |-> 0, waitTimeout |-> 0, batch |-> <<>>,
+    waitUs |-> 0, batchUs |-> 0, waitTimeout |-> 0, batch |-> <<>>, expWait |-> 0, earlyRet |-> FALSE,
     pendingAtWait |-> {}, touched |-> {}, fired |-> {}, lastTimerDl |-> -2000000000,
     prevDispErr |-> FALSE, carried |-> {},
     opted |-> {}, bs |-> <<>>, bhe |-> <<>>, synthWanted |-> {}, synthDone |-> {},
@@ -68,6 +68,7 @@ Fresh(old, ev) ==
         !.deferred = [s \in S |-> "continue"],
         !.pings = [s \in S |-> 0], !.handles = [s \in S |-> 1], !.closed = [s \in S |-> FALSE],
         !.queue = [s \in S |-> <<>>], !.senders = [s \in S |-> 1], !.closedSeen = [s \in S |-> FALSE],
+        !.sended = [s \in S |-> FALSE],
         !.bytes = [f \in UNION {RangeOf(D[s].fds) : s \in S} |-> 0],
         !.peerClosed = [f \in UNION {RangeOf(D[s].fds) : s \in S} |-> FALSE], !.armedOS = PerChild(FALSE),
         !.edgeDue = PerChild(FALSE), !.childOff = PerChild(FALSE),
@@ -128,6 +129,8 @@ PendingNow(sh, us) ==
   {<<s, 0>> : s \in {x \in sh.S : /\ sh.life[x] = "in" /\ sh.en[x] /\ ~sh.fuzzy[x]
                                   /\ CASE Kind(sh, x) = "ping"  -> sh.pings[x] > 0
                                        [] Kind(sh, x) = "chan"  -> sh.queue[x] # <<>> \/ (sh.senders[x] = 0 /\ ~sh.closedSeen[x])
+                                       \* a stream: queued items, or the end of the stream not yet reported
+                                       [] Kind(sh, x) = "stream" -> sh.queue[x] # <<>> \/ (sh.sended[x] /\ ~sh.closedSeen[x])
                                        [] Kind(sh, x) = "timer" -> sh.armed[x] /\ sh.armHi[x] <= us
                                        [] OTHER -> FALSE}}
   \cup
@@ -142,7 +145,7 @@ Opted(sh) == {s \in sh.S : sh.decl[s].life = 1 /\ sh.life[s] = "in" /\ sh.en[s]}
 ExpectedEpoll(sh) ==
   UNION {
     IF ~(sh.life[s] = "in" /\ sh.en[s]) THEN {}
-    ELSE IF Kind(sh, s) \in {"ping", "chan"}
+    ELSE IF Kind(sh, s) \in {"ping", "chan", "stream"}
       THEN {<<sh.decl[s].fds[1], 1, 0, "level", KeyOf(sh, s)[1], KeyOf(sh, s)[2]>>}
     ELSE IF Kind(sh, s) = "comp"
       THEN {LET ch == sh.decl[s].children[c]
@@ -249,6 +252,8 @@ UpdOpret(sh, ev) ==
     [] ev.op = "drop_ping" /\ ok ->
          [base EXCEPT !.handles[tgt] = @ - 1, !.closed[tgt] = sh.handles[tgt] = 1]
     [] ev.op = "send" /\ ok -> [base EXCEPT !.queue[tgt] = Append(@, co.m)]
+    [] ev.op = "push" /\ ok -> [base EXCEPT !.queue[tgt] = Append(@, co.m)]
+    [] ev.op = "end_stream" /\ ok -> [base EXCEPT !.sended[tgt] = TRUE]
     [] ev.op = "clone_sender" /\ ok -> [base EXCEPT !.senders[tgt] = @ + 1]
     [] ev.op = "drop_sender" /\ ok -> [base EXCEPT !.senders[tgt] = @ - 1]
     [] ev.op = "wr" /\ ok ->
@@ -294,7 +299,7 @@ UpdCb(sh, ev) ==
       b0 == [sh EXCEPT !.stack = Append(@, s), !.cbUs = ev.us, !.cbSub = ev.sub + 1,
                        !.fired = @ \cup {<<s, IF k = "comp" THEN c ELSE 0>>}]
   IN CASE k = "ping"  -> [b0 EXCEPT !.pings[s] = 0]
-       [] k = "chan"  -> IF ev.p >= 0
+       [] k \in {"chan", "stream"} -> IF ev.p >= 0
                          THEN [b0 EXCEPT !.queue[s] = IF @ # <<>> /\ Head(@) = ev.p THEN Tail(@) ELSE @]
                          ELSE [b0 EXCEPT !.closedSeen[s] = TRUE]
        [] k = "timer" -> [b0 EXCEPT !.firedArm[s] = sh.armId[s], !.lastTimerDl = Max2(@, FiredDl(sh, ev))]
@@ -373,8 +378,16 @@ Upd(sh, ev) ==
     [] ev.e \in {"reg", "rereg", "unreg"} -> UpdProbeCall(sh, ev)
     [] ev.e = "lookup"  -> [sh EXCEPT !.pa = NoPA]
     [] ev.e = "wait"    -> [sh EXCEPT !.waitSeen = TRUE, !.waitUs = ev.us, !.waitTimeout = ev.timeout,
-                                      !.pendingAtWait = PendingNow(sh, ev.us)]
+                                      !.pendingAtWait = PendingNow(sh, ev.us),
+                                      \* C12: how long this wait must last if nothing happens (microseconds; 0 = may return at once)
+                                      !.expWait = LET armedDl == {sh.armLo[x] - ev.us : x \in {y \in sh.S : IsTimer(sh, y) /\ sh.life[y] = "in" /\ sh.en[y] /\ sh.armed[y]}}
+                                                      tmo == IF ev.timeout < 0 THEN 2000000000 ELSE ev.timeout
+                                                      dl == IF armedDl = {} THEN 2000000000 ELSE CHOOSE m \in armedDl : \A o \in armedDl : m <= o
+                                                  IN IF PendingNow(sh, ev.us) # {} \/ sh.synthWanted # {} \/ (\E x \in sh.S : sh.fuzzy[x]) THEN 0
+                                                     ELSE Max2(0, Min2(tmo, dl)),
+                                      !.earlyRet = FALSE]
     [] ev.e = "batch"   -> [sh EXCEPT !.rearmed = {}, !.batchSeen = TRUE, !.batchUs = ev.us, !.batch = ev.keys,
+                                      !.earlyRet = (sh.expWait < 2000000000 /\ ev.us - sh.waitUs < sh.expWait - 400),
                                       !.rdyAtBatch = {<<s, c>> \in UNION {{<<x, d>> : d \in 1..NCh(sh.decl[x])} : x \in sh.S} :
                                                          By(sh, s, c) > 0}]
     [] ev.e = "synth"   -> [sh EXCEPT !.synthSeen = TRUE]
@@ -407,6 +420,9 @@ CauseOk(sh, ev) ==
   CASE k = "ping"  -> sh.pings[s] > 0
     [] k = "chan"  -> IF ev.p >= 0 THEN sh.queue[s] # <<>> /\ Head(sh.queue[s]) = ev.p
                       ELSE sh.senders[s] = 0 /\ sh.queue[s] = <<>> /\ ~sh.closedSeen[s]
+    \* StreamSource: every item in order exactly once, then a single None
+    [] k = "stream" -> IF ev.p >= 0 THEN sh.queue[s] # <<>> /\ Head(sh.queue[s]) = ev.p
+                       ELSE sh.sended[s] /\ sh.queue[s] = <<>> /\ ~sh.closedSeen[s]
     [] k = "timer" -> sh.armed[s] /\ (sh.dlPending[s] \/ (sh.armLo[s] <= ev.p /\ ev.p <= sh.armHi[s]))
     [] OTHER ->
          LET c == ev.sub + 1 IN
@@ -439,7 +455,8 @@ ViolCb(sh, ev) ==
           \cup If(IsTimer(sh, s) /\ ~sh.armed[s], {<<"C05", "cancelled_arming_fired">>})
           \cup If(IsTimer(sh, s) /\ sh.armed[s], {<<"C05", "wrong_deadline_payload">>})
           \cup If(Kind(sh, s) = "ping", {<<"C03", "cb_without_ping">>})
-          \cup If(Kind(sh, s) = "chan", {<<"C04", "delivery_not_head_of_queue">>}))
+          \cup If(Kind(sh, s) = "chan", {<<"C04", "delivery_not_head_of_queue">>})
+          \cup If(Kind(sh, s) = "stream", {<<"C10", "stream_item_not_in_order_exactly_once">>}))
   \cup If(IsTimer(sh, s) /\ ~sh.dlPending[s] /\ ev.p > sh.batchUs, {<<"C05", "fired_early">>})
   \cup If(IsTimer(sh, s) /\ sh.dlPending[s] /\ sh.armed[s] /\ sh.armLo[s] > sh.batchUs, {<<"C05", "fired_early">>})
   \cup If(IsTimer(sh, s) /\ sh.armed[s] /\ sh.firedArm[s] = sh.armId[s], {<<"C05", "arming_fired_twice">>})
@@ -459,6 +476,8 @@ ViolPeret(sh, ev) ==
      {<<"C03", "closed_ping_not_removed">>})
   \cup If(Kind(sh, s) = "ping" /\ ~sh.closed[s] /\ ev.act = "remove", {<<"C03", "open_ping_removed">>})
   \cup If(Kind(sh, s) = "chan" /\ sh.closedSeen[s] /\ ev.act # "remove", {<<"C04", "closed_channel_not_removed">>})
+  \cup If(Kind(sh, s) = "stream" /\ sh.closedSeen[s] /\ ev.act # "remove", {<<"C10", "ended_stream_not_removed">>})
+  \cup If(Kind(sh, s) = "stream" /\ ~sh.closedSeen[s] /\ ev.act = "remove", {<<"C10", "live_stream_removed">>})
 
 ViolApply(sh, ev) ==
   IF ~sh.lastPeret.on THEN {<<"C09", "apply_without_processing">>}
@@ -495,6 +514,7 @@ PendingCheck(sh) ==
      \cup If(sh.prevDispErr /\ missed # {}, {<<"C15", "event_lost_after_failed_dispatch">>})
      \cup If(\E p \in missed : Kind(sh, p[1]) = "ping", {<<"C03", "ping_lost">>})
      \cup If(\E p \in missed : Kind(sh, p[1]) = "chan", {<<"C04", "message_stranded">>})
+     \cup If(\E p \in missed : Kind(sh, p[1]) = "stream", {<<"C10", "stream_item_stranded">>})
 
 IdleEndCheck(sh) ==
   If(\E i \in DOMAIN sh.idle : sh.idle[i].st = "pending"
@@ -526,6 +546,9 @@ ViolOpret(sh, ev) ==
           {<<"C06", "into_inner_after_removal_failed">>})
   \cup If(ev.op = "dispatch" /\ ev.r = "ok", PendingCheck(sh) \cup IdleEndCheck(sh))
   \cup If(ev.op = "dispatch", ViolPaEnd(sh))
+  \* C12: with no event and no wake-up the wait lasts at least min(timeout, earliest armed deadline)
+  \cup If(ev.op = "dispatch" /\ ev.r = "ok" /\ sh.earlyRet /\ sh.fired = {} /\ sh.idleRanNow = {},
+          {<<"C12", "wait_cut_short_without_event">>, <<"C05", "cancelled_arming_left_residue_that_wakes_the_loop">>})
   \* idles belong to the first dispatch that returns Ok after their insertion: a failing dispatch runs none
   \cup If(ev.op = "dispatch" /\ ev.r = "err" /\ sh.idleRanNow # {}, {<<"C13", "idle_ran_in_failed_dispatch">>})
   \cup If(ev.op = "dispatch" /\ ev.r = "ok" /\ sh.synthWanted \ (sh.synthDone \cup sh.touched) # {},
